@@ -122,3 +122,19 @@ Theorem C09_v2_exact_set_fires_or_waits : forall c layer presses rf ch,
      \/ (cv_active c' = cv_active c /\ rf = false /\ cv_until_change c' <> 0)).
 Proof. exact exact_set_fires_or_waits. Qed.
 Print Assumptions C09_v2_exact_set_fires_or_waits.
+
+(* defchordsv2, keys that complete no chord are not swallowed: a first key that is in no chord activates nothing, takes nothing
+   out of the queue and opens the ignore window; while that window is open every queued event is handed on to the layout in its
+   original order and the queue is emptied *)
+Theorem C09_v2_outside_key_starts_ignore_window : forall c layer start rest rf,
+  scan_presses (cv_queue c) [] = Ok (start :: rest, rf) ->
+  (forall ch, In ch (cv_chords c) -> mem_n start (c2_keys ch) = false) ->
+  process_presses c layer = Ok (no_chord_activations c).
+Proof. exact outside_key_starts_ignore_window. Qed.
+Print Assumptions C09_v2_outside_key_starts_ignore_window.
+
+Theorem C09_v2_ignore_window_forwards_in_order : forall c dq layer,
+  0 <? cv_ignore c = true -> (length dq + length (cv_queue c) <= SMOL_Q_LEN)%nat ->
+  exists c', drain_inputs c dq layer = Ok (c', dq ++ cv_queue c) /\ cv_queue c' = [] /\ cv_chords c' = cv_chords c.
+Proof. exact ignore_window_forwards_in_order. Qed.
+Print Assumptions C09_v2_ignore_window_forwards_in_order.
